@@ -24,6 +24,7 @@ class CFG:
         self.succ: dict = {self.ENTRY: set(), self.EXIT: set(), self.RAISE: set()}
         self.nodes: list = []
         self.kind: dict = {}
+        self.true_succ: dict = {}
         last = self._block(func.body, [self.ENTRY], None, None, [])  # type: ignore[attr-defined]
         for p in last:
             self._edge(p, self.EXIT)
@@ -65,7 +66,9 @@ class CFG:
             for p in preds:
                 self._edge(p, t)
             self._exc(t, handlers)
+            before = set(self.succ[t])
             a = self._block(st.body, [t], brk, cont, handlers)
+            self.true_succ[t] = set(self.succ[t]) - before
             b = self._block(st.orelse, [t], brk, cont, handlers) if st.orelse else [t]
             return a + b
         if isinstance(st, ast.While):
@@ -75,7 +78,9 @@ class CFG:
                 self._edge(p, t)
             self._exc(t, handlers)
             brks: list = []
+            before = set(self.succ[t])
             body_end = self._block(st.body, [t], brks, t, handlers)
+            self.true_succ[t] = set(self.succ[t]) - before
             for p in body_end:
                 self._edge(p, t)
             out = []
@@ -188,6 +193,17 @@ class CFG:
                 continue
             stack.extend(self.succ.get(n, ()))
         return seen
+
+    def branch(self, test, polarity: bool) -> set:
+        """entry nodes of the branch taken when the if / while test `test` evaluates to `polarity`"""
+        ts = self.true_succ.get(test, set())
+        return set(ts) if polarity else set(self.succ.get(test, ())) - set(ts)
+
+    def reaches(self, starts, target, avoid: Optional[Callable] = None) -> bool:
+        for s_ in starts:
+            if s_ is target or target in self.reachable(s_, avoid=avoid, include_start=True):
+                return True
+        return False
 
     def must_pass(self, start, target, through: Callable) -> bool:
         """True iff every path start ->* target passes a node satisfying `through`
